@@ -21,10 +21,12 @@ theorem writeItems_threaded (E : Ext) (cfg : Cfg) : ∀ (its : List RustItem) (s
     exact ⟨a :: bs, .cons ha hbs, by simp⟩
 
 /-- the blocks come after the doc-string header, the imports / `TypeVar` declarations and the
-custom JSON helper functions (all three computed from the final printer state) -/
+custom JSON helper functions (all three computed from the final printer state: the state `st1` the
+items leave, plus the `datetime` import when the datetime functions are written) -/
 theorem generate_blocks (E : Ext) (cfg : Cfg) (d : ParsedData) (st0 : St) (text : Str) (st : St)
     (h : generate E cfg d st0 = .ok (text, st)) :
-    ∃ items blocks, Pipeline.generateOrder d = some items ∧ Threaded (writeItem E cfg) items st0 blocks st ∧
+    ∃ items blocks st1, Pipeline.generateOrder d = some items ∧ Threaded (writeItem E cfg) items st0 blocks st1 ∧
+      st = addDatetimeImport st1 ∧
       text = beginFile cfg ++ writeAllImports st ++ writeCustomFns st ++ blocks.flatten := by
   unfold generate at h
   cases ho : Pipeline.generateOrder d with
@@ -34,7 +36,7 @@ theorem generate_blocks (E : Ext) (cfg : Cfg) (d : ParsedData) (st0 : St) (text 
     obtain ⟨⟨body, st1⟩, hb, h⟩ := bindOk h
     cases h
     obtain ⟨blocks, hth, rfl⟩ := writeItems_threaded E cfg items st0 body st1 hb
-    exact ⟨items, blocks, rfl, hth, rfl⟩
+    exact ⟨items, blocks, st1, rfl, hth, rfl, rfl⟩
 
 theorem hashComments_lineStart (n : Nat) (cs : List Str) : LineStart (hashComments n cs) := by
   unfold hashComments
